@@ -11,11 +11,11 @@ import (
 )
 
 type Term struct {
-	Idx  int
-	Key  string // table key (upper-case aliases for the out-of-year entries)
-	S    *calendar.Solar
-	J    int // civil day number
-	Sec  int // second of day
+	Idx int
+	Key string // table key (upper-case aliases for the out-of-year entries)
+	S   *calendar.Solar
+	J   int // civil day number
+	Sec int // second of day
 }
 
 func (t Term) inst() int64 { return int64(t.J)*86400 + int64(t.Sec) }
@@ -36,11 +36,11 @@ func termsOf(l *calendar.Lunar) []Term {
 
 func init() {
 	register(&Check{
-		ID:   "C05",
-		Rule: "every civil day in the year set (thorough: all days 1..9998) x (26 slot-edge times + {t-1s,t,t+1s} for every solar-term instant t on that day): all pillar getters (index and string forms, EightChar under sect 1 and 2) compared with the mod-60 reference evaluated on the library's own term table. non-trivial = states lying on a change-over: 23:00 edge, a Jie day/instant, Lichun day/instant, lunar New Year's Day",
-		Assume: []string{"day pillar anchor (JDN+49) mod 60 (2000-01-01 = wu-wu, index 54)", "whether the term table itself is right is C03's job; C05 takes the library's own term days/instants"},
-		Shards: func(tier string, seed int64) []Shard { return yearShards(tier, seed, 9998, "") },
-		Run:    runC05,
+		ID:            "C05",
+		Rule:          "every civil day in the year set (thorough: all days 1..9998) x (26 slot-edge times + {t-1s,t,t+1s} for every solar-term instant t on that day): all pillar getters (index and string forms, EightChar under sect 1 and 2) compared with the mod-60 reference evaluated on the library's own term table. non-trivial = states lying on a change-over: 23:00 edge, a Jie day/instant, Lichun day/instant, lunar New Year's Day",
+		Assume:        []string{"day pillar anchor (JDN+49) mod 60 (2000-01-01 = wu-wu, index 54)", "whether the term table itself is right is C03's job; C05 takes the library's own term days/instants"},
+		Shards:        func(tier string, seed int64) []Shard { return yearShards(tier, seed, 9998, "") },
+		Run:           runC05,
 		MinNontrivial: 100,
 	})
 }
